@@ -13,13 +13,13 @@ from .replay_arrays import compare_array, snapshot, unchanged, gen_val, S_NUM
 PROBE_ALIAS = False   # C15: write into the result of a read and require the source unchanged
 
 
-def universe_of(vec):
+def universe_of(vec, reverse_items=False):
     u = vec["universe"]
     canon = u["canon"]
     items = {l: (its, root) for l, its, root in u["items"]}
     lens = [len(items[l][0]) for l in canon]
     subs = {l: (root, its) for l, (its, root) in items.items() if l not in canon}
-    return Universe(canon, lens, subs)
+    return Universe(canon, lens, subs, reverse_items=reverse_items)
 
 
 def key_value(U, letter, sel):
@@ -47,6 +47,17 @@ def spellings(U, key):
             yield "tuple", tuple(flat)
         if len(flat) == 1:
             yield "single", flat[0]
+        # items of one dimension need not be adjacent in a tuple key
+        groups = [key_value(U, l, s) for l, s in key]
+        groups = [g if isinstance(g, list) else [g] for g in groups]
+        if len(groups) >= 2 and any(len(g) >= 2 for g in groups):
+            inter = []
+            for i in range(max(len(g) for g in groups)):
+                for g in groups:
+                    if i < len(g):
+                        inter.append(g[i])
+            if inter != flat:
+                yield "tuple_interleaved", tuple(inter)
 
 
 def _err_case(U, cfg, kind, l):
@@ -63,6 +74,12 @@ def _err_case(U, cfg, kind, l):
     if kind == "unknown_in_dict":
         return U, {l: "no_such_item"}, False
     if kind == "unknown_in_list_write":
+        items = [U.item(l, i) for i in U.labels(l)]
+        if len(items) >= 6:      # a long list (more than five items) with an unknown item that sorts before / between / after the items
+            srt = sorted(items)
+            unknowns = ["", srt[2] + "5", "item_zz", srt[0][:-1] if len(srt[0]) > 1 else "0"]
+            return U, ("MULTI", [{l: items[:3] + [u] + items[3:]} for u in unknowns if u not in items]
+                       + [{l: [u] + items[::-1]} for u in unknowns[1:2]]), True
         return U, {l: [good, "no_such_item"]}, True
     if kind == "foreign_item_in_dict":
         if not others:
@@ -106,6 +123,17 @@ def run_error_vector(vec):
         return []
     U, pykey, is_write = case
     problems = []
+    if isinstance(pykey, tuple) and len(pykey) == 2 and pykey[0] == "MULTI":
+        for k in pykey[1]:
+            x = U.array(cfg["xd"], U.gen_values(1, cfg["xd"], "num", gen_val, "C"), name="x")
+            sx = snapshot(x)
+            try:
+                x[k] = 5.0
+                problems.append(f"[num/write] {{C06,C05}} key {sel['kind']} {k!r} must be refused but was accepted")
+            except Exception:
+                pass
+            problems += ["[num/write] " + p for p in unchanged(x, sx, "{C13} array after a refused key")]
+        return problems[:4]
     for mode in ("num",):
         x = U.array(cfg["xd"], U.gen_values(1, cfg["xd"], mode, gen_val, "C"), name="x")
         sx = snapshot(x)
@@ -130,7 +158,10 @@ def run_vector(vec):
     exp = vec["res"]
     U = universe_of(vec)
     problems = []
-    for mode, layout in (("sym", "C"), ("num", "C"), ("num", "F")):
+    for mode, layout in (("sym", "C"), ("num", "C"), ("num", "F"), ("num", "R")):
+        if layout == "R":       # the same dimensions with their items listed in reversed order (same names, letters and item sets)
+            U = universe_of(vec, reverse_items=True)
+            layout = "C"
         if mode == "sym" and cfg["rhs"] == "nd" and not cfg["yd"]:
             # a 0-d object ndarray would be stored as an element by numpy (an artefact of the
             # object dtype); the 0-d region is covered by the numeric runs
